@@ -82,10 +82,15 @@ def rebin(x, d, sample=False):
         sliceobj1 = [slice(None)]*len(d0)
         sliceobj = [slice(None)]*len(d)
         if d[k] > d0[k]:
-            f = d0[k]/d[k]
             for i in range(d[k]):
-                p = f*i
-                fp = int(floor(p))
+                #
+                # The position in the original array is i*d0/d.  Its integer
+                # part is computed with integers: the product of a rounded
+                # d0/d with i can fall just below a whole number (e.g.
+                # 49*(5/245) = 0.99999...) and select the wrong element.
+                #
+                p = (i*d0[k])/d[k]
+                fp = (i*d0[k])//d[k]
                 sliceobj0[k] = slice(fp, fp + 1)
                 sliceobj[k] = slice(i, i + 1)
                 if sample:
